@@ -308,9 +308,9 @@ static void derive_tf_32x32_block_split_flag(MeContext *context_ptr) {
             max_subblock_error = AOMMAX(max_subblock_error, subblock_errors[i]);
         }
 
-        if (((block_error * 15 < sum_subblock_error * 16) &&
+        if ((((int64_t)block_error * 15 < (int64_t)sum_subblock_error * 16) &&
              max_subblock_error - min_subblock_error < 12000) ||
-            ((block_error * 14 < sum_subblock_error * 16) &&
+            (((int64_t)block_error * 14 < (int64_t)sum_subblock_error * 16) &&
              max_subblock_error - min_subblock_error < 6000)) { // No split.
             context_ptr->tf_32x32_block_split_flag[idx_32x32] = 0;
         } else { // Do split.
